@@ -115,6 +115,12 @@ def check_history(ctx: Ctx, case):
                     count(False)
                     ctx.fail("C02/prefix-changed", f"after a failing calibrate() previously recorded {k} changed", sub, case)
                     return
+            lens = {k: len(cur[k]) for k in calib.HIST}
+            if set(lens.values()) != {cal.n_sampled_params}:
+                count(False)
+                ctx.fail("C02/misaligned-lengths", f"call {ci} raised {type(e).__name__}; afterwards record lengths {lens} vs "
+                         f"sample counter {cal.n_sampled_params}", sub, case)
+                return
             count(False)
             return
         cur = calib.hist_snapshot(cal)
